@@ -7,7 +7,7 @@ export CARGO_NET_OFFLINE=true
 cd $WT || exit 1
 git checkout -q -- . ; git clean -fdq -e target
 timeout 3000 cargo build -q --offline -p koto_cli 2>/dev/null; cp target/debug/koto /tmp/seed/koto-orig-$ID
-for m in $OUT/m*; do
+for m in $OUT/m[0-9]; do
   k=$(basename $m)
   echo "== $ID $k" >> $RES
   git checkout -q -- .
